@@ -59,6 +59,10 @@ class TLSSession(Session):
         self._closing.set()
         self._socket.close()
         self._connected = False
+        # Wait for the session thread to finish: no listener is called once
+        # close() has returned (as SSHSession.close does)
+        while self.is_alive() and (self is not threading.current_thread()):
+            self.join(10)
 
     def connect(self, host=None, port=DEFAULT_TLS_NETCONF_PORT,
                 keyfile=None, certfile=None, ca_certs=None,
